@@ -80,6 +80,17 @@ def gen_messages(ctx):
 def oracle_search(mod, ctx, msgs):
     """Concrete failing inputs of the PROPERTY on the implementation."""
     out = []
+    table = getattr(mod, "_crc7_table", None)
+    cand = [[i] for i in range(256)] + msgs
+    if ctx.tier == "thorough" or True:
+        cand = cand + [[i, j] for i in range(256) for j in range(0, 256, 1)]
+    for m in cand:
+        got = call(mod, m, 0)
+        exp = ref_crc(m)
+        if got != ("ok", exp):
+            out.append({"kind": "input", "what": "crc7(%r) = %r, bit-serial CRC-7 gives %d" % (m, got, exp),
+                        "fingerprint": "crc7-differs-from-bitwise", "input": m, "expected": exp, "got": list(got)})
+            return out
     # a buffer object reused after an in-place change
     rr = ctx.rng
     for _ in range(3000):
@@ -97,17 +108,6 @@ def oracle_search(mod, ctx, msgs):
             out.append({"kind": "history", "what": "crc7 of a %s reused after flipping bit %d of byte %d in place: %r, bit-serial CRC-7 of %r gives %d "
                         "(first call on %r gave %r)" % (type(buf).__name__, bit, i, g2, list(buf), ref_crc(list(buf)), first, g1),
                         "fingerprint": "crc7-stale-result-on-reused-buffer", "first": first, "flip": [i, bit], "buffer_type": type(buf).__name__})
-            return out
-    table = getattr(mod, "_crc7_table", None)
-    cand = [[i] for i in range(256)] + msgs
-    if ctx.tier == "thorough" or True:
-        cand = cand + [[i, j] for i in range(256) for j in range(0, 256, 1)]
-    for m in cand:
-        got = call(mod, m, 0)
-        exp = ref_crc(m)
-        if got != ("ok", exp):
-            out.append({"kind": "input", "what": "crc7(%r) = %r, bit-serial CRC-7 gives %d" % (m, got, exp),
-                        "fingerprint": "crc7-differs-from-bitwise", "input": m, "expected": exp, "got": list(got)})
             return out
     # detection / linearity on the implementation
     r = ctx.rng
